@@ -6,6 +6,9 @@
 import GoFlags.Driver.Proto
 import GoFlags.Parse
 import GoFlags.Help
+import GoFlags.Ini
+import GoFlags.Man
+import GoFlags.Completion
 
 namespace GoFlags.Driver
 open GoFlags Bytes
@@ -230,6 +233,12 @@ def caseLine (t : Tables) (st : CaseState) (ws : List String) : CaseState :=
       match attr, vals with
       | "hidden", [v] => upd fun c => c.setHidden (v == "1")
       | "subopt", [v] => upd fun c => { c with subOpt := v == "1" }
+      | "shortdesc", [v] => match unhexArg v with
+        | some b => upd fun c => { c with groups := listModify c.groups 0 fun g => { g with shortDesc := b } }
+        | none => fail "bad shortdesc"
+      | "longdesc", [v] => match unhexArg v with
+        | some b => upd fun c => { c with groups := listModify c.groups 0 fun g => { g with longDesc := b } }
+        | none => fail "bad longdesc"
       | "aliases", vs => match hexListArgs vs with
         | some as => upd fun c => { c with aliases := as }
         | none => fail "bad aliases"
@@ -268,6 +277,32 @@ def caseLine (t : Tables) (st : CaseState) (ws : List String) : CaseState :=
         res.log.map (showEvent res.P)
       lines.foldl CaseState.emit st
     | _, _ => fail ("bad parse: " ++ " ".intercalate ws)
+  | none, ["iniparse", cols, asd, text] =>
+    match cols.toInt?, unhexArg text with
+    | some cols, some t =>
+      let help : HelpFn := fun P => (writeHelp P cols).getD (B "<<PANIC in WriteHelp>>")
+      let res := iniParse E help (asd == "1") st.P t
+      let st := { st with P := res.P }
+      (["INI " ++ showErr false res.err] ++ dumpState res.P ++ res.log.map (showEvent res.P)).foldl CaseState.emit st
+    | _, _ => fail "bad iniparse"
+  | none, ["iniwrite", bits] =>
+    match bits.toNat? with
+    | some b =>
+      let io : IniOpts := { includeDefaults := b &&& 2 ≠ 0, commentDefaults := b &&& 4 ≠ 0, includeComments := b &&& 8 ≠ 0 }
+      st.emit ("INIW " ++ hexArg (writeIni E st.P io))
+    | none => fail "bad iniwrite"
+  | none, ["man", date] =>
+    match unhexArg date with
+    | some d => st.emit ("MAN " ++ hexArg (writeMan E st.P d))
+    | none => fail "bad man"
+  | none, "complete" :: args =>
+    match hexListArgs args with
+    | some argv =>
+      -- completion mode runs the preamble of ParseArgs (help groups) and nothing else
+      let P := prepare E st.P
+      let items := complete P argv
+      { st with P := P }.emit ("COMP " ++ hexList (items.flatMap fun (it : Bytes × Bytes) => [it.1, it.2]))
+    | none => fail "bad complete"
   | none, ["model"] => (dumpModel st.P).foldl CaseState.emit st
   | none, ["help", cols] =>
     match cols.toInt? with
